@@ -165,7 +165,48 @@ def directed_rule_case(rng):
     return sg, dg, T
 
 
+def use_shapes_rules_cases(out, rng, n):
+    """use_shapes = U with rules: a named shape outside U that a shape of U refers to is loaded (its constraints are needed), but it
+    is not selected — its rules have no focus nodes, exactly as if its target declarations were removed"""
+    for k in range(n):
+        sg, dg = Graph(), Graph()
+        people = rng.sample(NODES, 3)
+        for x in people:
+            dg.add((x, RDF.type, EX.Person)); dg.add((x, RDF.type, EX.Other))
+            dg.add((x, EX.knows, rng.choice(people)))
+        P, O, ps, r, pm = EX.PersonShape, EX.OtherShape, BNode(), BNode(), BNode()
+        sg.add((P, RDF.type, SH.NodeShape)); sg.add((P, SH.targetClass, EX.Person)); sg.add((P, SH.property, ps))
+        sg.add((ps, SH.path, EX.knows)); sg.add((ps, SH["not"] if k % 2 else SH.node, O))
+        sg.add((O, RDF.type, SH.NodeShape)); sg.add((O, SH.targetClass, EX.Other)); sg.add((O, SH.rule, r)); sg.add((O, SH.property, pm))
+        sg.add((pm, SH.path, EX.mark)); sg.add((pm, SH.minCount, Literal(1)))
+        if k % 3 == 0:
+            sg.add((r, RDF.type, SH.SPARQLRule)); sg.add((r, SH.construct, Literal("CONSTRUCT { $this <%s> true } WHERE { $this a <%s> }" % (EX.mark, EX.Other))))
+        else:
+            sg.add((r, RDF.type, SH.TripleRule)); sg.add((r, SH.subject, SH.this)); sg.add((r, SH.predicate, EX.mark)); sg.add((r, SH.object, Literal(True)))
+        kw = {"advanced": True, "iterate_rules": bool(k % 2)}
+        code = vcase.run_code(sg, dg, dict(kw, use_shapes=[str(P)]))
+        sg2 = rewrite_shapes(sg, {P})
+        ref = vcase.run_code(sg2, dg, kw)
+        out.evaluations += 1
+        out.count("rules:use_shapes")
+        case = vcase.describe(sg, dg, dict(kw, use_shapes=[str(P)]), selection="rules-use_shapes")
+        if code[0] != ref[0] or (code[0] == "err" and code[1] != ref[1]):
+            out.b_fail.append({"signature": "C13:rules-use_shapes:outcome-differs", "case": case, "with_options": code[:2], "rewritten": ref[:2]})
+            continue
+        if code[0] != "ok":
+            continue
+        dms = vcase.declared_msg_shapes(sg)
+        a, b = vcase.multiset(code[2], dms, True), vcase.multiset(ref[2], dms, True)
+        if a != b or code[1] != ref[1]:
+            hidden, invented = list((b - a).elements())[:3], list((a - b).elements())[:3]
+            out.b_fail.append({"signature": "C13:rules-use_shapes:%s" % ("hides" if hidden and not invented else "invents" if invented and not hidden else "differs"),
+                               "case": case, "hidden": hidden, "invented": invented, "verdicts": [code[1], ref[1]]})
+        if code[2]:
+            out.nontrivial.add(("rules-use_shapes", k))
+
+
 def rules_family(ctx, out, rng, n):
+    use_shapes_rules_cases(out, rng, 6 if ctx.tier == "quick" else 40)
     for i in range(2 * n):
         if i < n:
             sg0, data, _constructs = rulegen.gen_case(rng)
